@@ -780,6 +780,16 @@ func bodyC17(s *Sim) {
 	if e := s.Store.GetEDS(def.NS, def.Name); e != nil && e.Status.Canary != nil {
 		// clean-up work for the canary role: duplicates on the canary nodes
 		if b := s.ersByLetter(def, "B"); b != nil {
+			// first a clean-up that succeeds (PodsCleanupDone becomes true), then the ones that may fail
+			mode := s.W.Extra["batchFail"]
+			s.W.Extra["batchFail"] = "none"
+			if n := s.Store.GetNode(e.Status.Canary.Nodes[0]); n != nil {
+				s.injectPod(b, n, PodState{Kind: "ready", AgeSec: 30, Suffix: "-d0"})
+				s.injectPod(b, n, PodState{Kind: "ready", AgeSec: 25, Suffix: "-d00"})
+			}
+			s.Advance(11 * time.Second)
+			s.RunTask(CtrlERS, types.NamespacedName{Namespace: b.Namespace, Name: b.Name})
+			s.W.Extra["batchFail"] = mode
 			for _, cn := range e.Status.Canary.Nodes {
 				if n := s.Store.GetNode(cn); n != nil {
 					s.injectPod(b, n, PodState{Kind: "ready", AgeSec: 20, Suffix: "-d1"})
